@@ -52,27 +52,29 @@ class Lock:
 
 
 # ------------------------------------------------------------------ harness
-def build_harness():
-    """Build the harness against /repo's current working tree with the verif tag."""
+def build_harness(name="harness"):
+    """Build a harness module (/verif/<name>, package main) against /repo's current working tree with the
+    verif tag; the binary is /verif/build/<name>."""
     t0 = time.time()
-    with Lock("harness"):
+    src = os.path.join(ROOT, name)
+    with Lock(name):
         os.makedirs(BUILD, exist_ok=True)
-        gosum = os.path.join(HARNESS_SRC, "go.sum")
+        gosum = os.path.join(src, "go.sum")
         if not os.path.exists(gosum):
             subprocess.run(["cp", os.path.join(REPO, "go.sum"), gosum], check=True)
-        p = subprocess.run(["go", "build", "-tags", "verif", "-o", HARNESS_BIN, "."],
-                           cwd=HARNESS_SRC, env=GOENV, capture_output=True, text=True, timeout=900)
+        p = subprocess.run(["go", "build", "-tags", "verif", "-o", os.path.join(BUILD, name), "."],
+                           cwd=src, env=GOENV, capture_output=True, text=True, timeout=900)
         if p.returncode != 0:
-            raise BuildError("harness build failed (does /repo compile with -tags verif?):\n" + p.stderr[-4000:])
+            raise BuildError("%s build failed (does /repo compile with -tags verif?):\n" % name + p.stderr[-4000:])
     return time.time() - t0
 
 
-def run_harness(cmd, cases, timeout=600, extra_args=()):
+def run_harness(cmd, cases, timeout=600, extra_args=(), binary="harness"):
     """Run one harness sub-command on a list of JSON-able cases; returns the list of observations."""
     if not cases:
         return []
     data = "\n".join(json.dumps(c, separators=(",", ":")) for c in cases) + "\n"
-    p = subprocess.run([HARNESS_BIN, cmd, *extra_args], input=data, capture_output=True, text=True,
+    p = subprocess.run([os.path.join(BUILD, binary), cmd, *extra_args], input=data, capture_output=True, text=True,
                        timeout=timeout)
     if p.returncode != 0:
         raise BuildError("harness %s exited %d: %s" % (cmd, p.returncode, p.stderr[-3000:]))
